@@ -112,6 +112,15 @@ def _child(i, case, fn, resdir, workroot, quiet):
         out["error"] = traceback.format_exc()[-4000:]
     linecov.stop()
     try:
+        from . import typefuzz
+        for k, v in typefuzz.STATS.items():
+            rec.obs[k] = rec.obs.get(k, 0) + v
+        for k, v in common.ARGV_FORMS.items():
+            rec.obs["argv_spelling:" + k] = rec.obs.get("argv_spelling:" + k, 0) + v
+        out["rec"] = rec.dump()
+    except Exception:
+        pass
+    try:
         tmp = os.path.join(resdir, f"{i}.tmp")
         with open(tmp, "w") as f:
             json.dump(out, f, default=str)
